@@ -4,22 +4,54 @@ import props.pcgen as pg
 from props.bngen import hx
 
 TRUSTED = [
-    "NOT PROVED: bilinearity of the Tate / Weil / optimal ate pairing as computed by the Miller loops (it needs the theory of divisors on "
-    "elliptic curves, which Mathlib does not have).  It is decided per presented line: the library prints e(P,Q) and e(aP,bQ); the driver checks "
-    "with its own arithmetic (Spec/Curve, Spec/CurveX, tower spec for Fp12) that the operands are the stated multiples, that "
-    "e(aP,bQ) = e(P,Q)^(ab), that e(P,Q) has order r and is non-trivial for non-identity operands, that an identity operand gives 1, and that a "
-    "multi-pairing equals the product of the individual pairings",
-    "proved (Props/C04.lean, abstract algebra): bilinearity on generators extends to the whole cyclic groups; the final exponentiation by "
-    "(q-1)/r maps every non-zero field element into the elements of order dividing r and is multiplicative, hence a multi-pairing computed as "
-    "one final exponentiation of a product of Miller values is the product of the pairings; bilinear + non-degenerate on generators of "
-    "prime-order groups implies non-degenerate everywhere",
-    "the pairing code itself (Miller loop, line functions, final exponentiation chains) is not modelled",
+    "NOT PROVED: bilinearity of the Tate / Weil / optimal ate pairing (that the value of the Miller recurrence is the function with divisor "
+    "s(Q) - ([s]Q) - (s-1)(O), Weil reciprocity): it needs the theory of divisors on elliptic curves, which Mathlib does not have.  It is decided per "
+    "presented line (ppb): the library prints e(P,Q) and e(aP,bQ); the driver checks with its own arithmetic (Spec/Curve, Spec/CurveX, tower spec for "
+    "Fp12) that the operands are the stated multiples, that e(aP,bQ) = e(P,Q)^(ab), that e(P,Q) has order r and is non-trivial for non-identity "
+    "operands, that an identity operand gives 1, and that a multi-pairing equals the product of the individual pairings",
+    "CLASS A (model proved = specification for all inputs AND executed on every presented line): the final exponentiation.  pp_exp_bn, pp_exp_sm9, "
+    "pp_exp_b12, the dispatcher pp_exp_k12 and fp12_conv_cyc are TRANSLATED from the C text on every run (tools/translate_pp.py -> Gen/PpExp.lean); "
+    "Props/C04B.lean proves about the generated definitions: chain(f) = f^(c (p^12-1)/r) with c = 2x(6x^2+3x+1) (BN), 1 (SM9, x >= 0), 3 (BLS12, both "
+    "branches) for every integer x, gcd(c, r) = 1 for every x, the easy part lies in the cyclotomic subgroup (any finite field with p^12 elements); "
+    "fp12_exp_cyc_sps is a hand model (loop for loop) proved to raise to the integer the sparse form denotes.  The driver executes the generated "
+    "chains and the hand model with its own Fp12 arithmetic on fexp / fcyc / expsps lines (arbitrary field elements: 0, 1, -1, subfield elements, "
+    "small orders, cyclotomic, order r, generic; arbitrary sparse forms) and compares with f^(c (p^12-1)/r) by plain square-and-multiply; the "
+    "hypotheses of the theorems are evaluated on the parameters the running library reports",
+    "CLASS A, the Miller loops: pp_mil_k12, pp_mil_lit_k12, pp_fin_k12_oatep and the maps pp_map_(sim_)oatep / tatep / weilp_k12 are hand models "
+    "(Model/PpMiller.lean) with the line functions as parameters.  Proved over an abstract Miller algebra (Props/C04B.lean): the loops as coded "
+    "(NAF digits, peeled first iteration, sign handling, inner loop over the pairs) compute the canonical recurrence f <- f^2 l_{[n]Q,[n]Q}(P), "
+    "n <- 2n; digit +-1: f <- f l_{[n]Q,+-Q}(P), n <- n +- 1 with the lines at the integer multiples, the running points end at [s]Q for the integer s "
+    "the digits denote, and the multi-pairing loop is the product of the single loops.  The driver runs the models over E(Fp12) with the affine "
+    "chord-and-tangent lines and compares the library's pairing value with the model's value after the final exponentiation, value for value "
+    "(ppm / ppms lines, every variant, multi-pairings with identities, all three curves)",
+    "CLASS A, the line functions (general-b branch): pp_dbl_k12_projc_basic / _lazyr, pp_add_k12_projc_basic / _lazyr, pp_dbl_lit_k12, pp_add_lit_k12 "
+    "are TRANSLATED from the C text on every run (tools/translate_ppline.py -> Gen/PpLine.lean; the lazy-reduction primitives are field operations "
+    "on values).  Proved about the generated definitions over any field (Props/C04B.lean, *_line): the three written slots of the sparse element "
+    "are s x (the coefficients of the affine tangent / chord through the running point evaluated at the other argument) with s = -2YZ resp. "
+    "X - Z x2 (a factor in the field of the twist, removed by the final exponentiation), the fourth slot stays zero, and the updated running point "
+    "is the tangent / chord point of the curve law.  The driver executes the generated definitions with its own Fp2 arithmetic on the operands in "
+    "the representation the library received (lfn lines: model column, exact equality incl. the placement of the slots by twist type) and judges "
+    "the library's line value against the affine line over Fp12 up to a factor in a proper subfield (spec column)",
+    "CLASS C (no model; compared on the presented lines only): the b = 2 branch of pp_dbl_k12_projc_* (coordinate-level code with the non-residue -1 "
+    "built in; no configured curve takes it: the harness reports ep_curve_opt_b() and the driver falls back to the spec column alone), "
+    "pp_dbl_k12_basic / pp_add_k12_basic (EP_ADD = BASIC builds, not configured); which positions of Fp12 the symbolic slots are is part of the "
+    "executed model (placeSlots) but not of the theorems; the compressed squarings fp12_sqr_pck / fp12_back_cyc_sim inside fp12_exp_cyc_sps are "
+    "abstracted to a squaring / the identity on values (C10 proves the decompression); digit-level lazy reduction (C10's class C)",
+    "trusted: tools/translate_pp.py, tools/translate_ppline.py (accepted fragments documented in the files; anything else is a translation failure = broken obligation), the "
+    "tower specification as the definition of Fp12, the tower-norm inverse of the driver is checked by a * a^-1 = 1 on every use",
 ]
 ASSUMPTIONS = ["the k = 8, 16, 18, 24 families are not covered (PARTIAL); BLS12-381 runs in the p381 configuration: the specification side is generic in the "
-               "tower, the harness covers embedding degree 12 in the base configuration only"]
-RULE = ("both pairing-friendly curves, variants map / tatep / weilp / oatep: operands identity, generators, equal/opposite multiples, non-normalised "
-        "representations; scalars 0, 1, r-1, r, negative, random; multi-pairings of length 0..5 with identities at arbitrary positions; "
-        "non-trivial = line with non-identity operands and ab != 0 mod r")
+               "tower, the harness covers embedding degree 12 only",
+               "the odd-parameter branch (b[0] == 0) of pp_exp_b12 is proved but not exercised: no configured BLS12 curve has an odd parameter",
+               "pp_exp_b12, even branch: the sparse form must not contain the position -1 (hypothesis hbs of the theorem, evaluated by the driver); "
+               "fp_prime_set_pairf can store it for |x| = 6 mod 8, no shipped parameter is of that form"]
+RULE = ("both pairing-friendly curves (+ BLS12-381), variants map / tatep / weilp / oatep: operands identity, generators, equal/opposite multiples, "
+        "non-normalised representations; scalars 0, 1, r-1, r, negative, random; multi-pairings of length 0..5 with identities at arbitrary positions; "
+        "final exponentiation of arbitrary field elements by class; sparse exponent forms of every shape; non-trivial = line with non-identity "
+        "operands and ab != 0 mod r, or a final-exponentiation / Miller-model line on a non-zero, non-identity operand")
+
+GENERATED = ["pp", "ppline"]
+EXTRA_THEOREM_MODULES = ["RelicVerif.Props.C04B"]
 
 IDS = {"base": [23, 24]}
 VARIANTS = ["map", "tatep", "weilp", "oatep"]
@@ -81,6 +113,126 @@ def gen_lines(rng, st, count):
     return out
 
 
+def fp12tok(cs):
+    return ",".join("%x" % c for c in cs)
+
+
+def special_elements(rng, st):
+    """elements of Fp12 by class (flat memory order of fp12_t; index 0 = the Fp part): 0, 1, -1, subfield elements (killed by the easy
+    part), roots of unity of small order, single-coefficient elements, coefficients next to p"""
+    p = st.p
+    unit = lambda i, v=1: [v if j == i else 0 for j in range(12)]
+    out = [("zero", [0] * 12), ("one", unit(0)), ("minus-one", unit(0, p - 1)), ("fp", unit(0, 2)), ("fp", unit(0, rng.bits(300) % p or 1))]
+    # a primitive cube root of unity in Fp (p = 1 mod 3 for both families)
+    if p % 3 == 1:
+        g = 2
+        while pow(g, (p - 1) // 3, p) == 1:
+            g += 1
+        out.append(("order-3", unit(0, pow(g, (p - 1) // 3, p))))
+    out.append(("fp2", [rng.bits(300) % p, rng.bits(300) % p] + [0] * 10))          # in Fp2
+    out.append(("fp2-i", unit(1)))                                                    # the adjoined square root (order 4 when qnr = -1)
+    out.append(("fp6", [rng.bits(300) % p for _ in range(6)] + [0] * 6))             # in Fp6: killed by p^6 - 1
+    for i in (2, 4, 6, 8, 11):
+        out.append(("single", unit(i, rng.choice([1, 2, p - 1]))))
+    out.append(("near-p", [p - 1 - rng.below(3) for _ in range(12)]))
+    out.append(("near-p", [rng.choice([0, 1, p - 1]) for _ in range(12)]))
+    return out
+
+
+def sps_lists(rng, shipped):
+    """sparse forms for fp12_exp_cyc_sps: every shape of the code (len 0, b[0] == 0 or not, negative entries, one entry, long gaps),
+    the shipped form and its lowered copy (the `_b` array of pp_exp_b12), and lists that are not ascending (j never goes back)"""
+    out = [[], [0], [1], [-1], [2], [-3], [0, 1], [0, -1], [0, 2], [0, -2], [1, 2], [1, -2], [-1, 2], [-1, 3], [2, -4], [0, 1, 2, 3], [0, -2, 4, -6],
+           [7], [0, 64], [0, -64], [63], [-63, 64], [3, 70], list(shipped), [b - 1 if b > 0 else b + 1 for b in shipped if b != 0],
+           [5, 3], [0, 0], [4, 4], [0, 3, 2, 6]]
+    for _ in range(8):
+        n = 1 + rng.below(7)
+        pos = sorted(rng.below(66) for _ in range(n))
+        pos = [q for i, q in enumerate(pos) if i == 0 or q != pos[i - 1]]
+        out.append([q if (q == 0 or rng.chance(1, 2)) else -q for q in pos])
+    return out
+
+
+def gen_fexp(ctx, ex, cid, st, kv, count):
+    """final exponentiation on arbitrary elements, the easy part, the sparse exponentiation"""
+    rng = ctx.rng
+    valid, cyc, rnd, _ = pg.gt_elements(ex, cid, rng, st, max(4, count // 6))
+    lines = []
+    spec = special_elements(rng, st)
+    for i, (_cls, a) in enumerate(spec):
+        lines.append("fexp %s %s" % ("ali" if i % 2 else "sep", fp12tok(a)))
+    for _cls, a in spec[:8]:
+        lines.append("fcyc %s %s" % (rng.choice(["sep", "ali"]), fp12tok(a)))
+    pool = [("generic", a) for a in rnd] + [("cyc", a) for a in cyc] + [("gt", a) for a in valid]
+    for i in range(count):
+        _c, a = pool[i % len(pool)] if pool else ("one", fp12tok(spec[1][1]))
+        lines.append("fexp %s %s" % (rng.choice(["sep", "ali"]), a))
+    for a in rnd[:3] + cyc[:1]:
+        lines.append("fcyc %s %s" % (rng.choice(["sep", "ali"]), a))
+    shipped = [] if kv.get("sps", ".") == "." else [int(t) for t in kv["sps"].split(",")]
+    bases = (cyc + valid) or [fp12tok(spec[1][1])]
+    for i, b in enumerate(sps_lists(rng, shipped)):
+        a = bases[i % len(bases)] if i % 7 else fp12tok(spec[1][1])
+        lines.append("expsps %s %s %s %s" % (rng.choice(["sep", "ali"]), a, "neg" if i % 3 == 1 else "pos", ",".join(str(t) for t in b) or "."))
+    # a non-cyclotomic operand: outside the contract of the compressed squarings, compared only
+    if rnd:
+        lines.append("expsps sep %s pos 0,3" % rnd[0])
+    return lines
+
+
+def gen_miller(ctx, st, count):
+    """pairing values compared with the Miller-loop model (model column): every variant, generators and random subgroup points, an
+    identity in either slot, multi-pairings with identities inside, equal / opposite operands"""
+    rng = ctx.rng
+    cv1, cv2 = st.cv1, st.cv2
+    P = [cv1.g] + [cv1.mul(cv1.g, rng.bits(256) % st.n) for _ in range(2)]
+    Q = [cv2.g] + [cv2.mul(cv2.g, rng.bits(256) % st.n) for _ in range(2)]
+    out = []
+    for v in ["oatep", "map", "tatep", "weilp"]:
+        out.append("ppm %s %s %s" % (v, pg.p1tok(P[0]), pg.p2tok(Q[0])))
+    out.append("ppm oatep inf %s" % pg.p2tok(Q[0]))
+    out.append("ppm tatep %s inf" % pg.p1tok(P[0]))
+    out.append("ppm oatep %s %s" % (pg.p1tok(P[1]), pg.p2tok(Q[2])))
+    out.append("ppm oatep %s %s" % (pg.p1tok(cv1.mul(P[1], -1)), pg.p2tok(Q[1])))
+    out.append("ppm tatep %s %s" % (pg.p1tok(P[2]), pg.p2tok(Q[1])))
+    out.append("ppms oatep 0")
+    out.append("ppms oatep 1 %s %s" % (pg.p1tok(P[1]), pg.p2tok(Q[1])))
+    out.append("ppms oatep 2 %s %s %s %s" % (pg.p1tok(P[1]), pg.p2tok(Q[1]), pg.p1tok(P[2]), pg.p2tok(Q[0])))
+    out.append("ppms oatep 3 %s %s inf %s %s %s" % (pg.p1tok(P[0]), pg.p2tok(Q[2]), pg.p2tok(Q[0]), pg.p1tok(P[2]), pg.p2tok(Q[1])))
+    out.append("ppms map 2 %s %s %s %s" % (pg.p1tok(P[1]), pg.p2tok(Q[1]), pg.p1tok(cv1.mul(P[1], -1)), pg.p2tok(Q[1])))
+    out.append("ppms tatep 2 %s %s %s %s" % (pg.p1tok(P[0]), pg.p2tok(Q[1]), pg.p1tok(P[1]), pg.p2tok(Q[0])))
+    out.append("ppms weilp 2 %s inf %s %s" % (pg.p1tok(P[0]), pg.p1tok(P[1]), pg.p2tok(Q[2])))
+    for _ in range(count):
+        v = rng.choice(["oatep", "oatep", "oatep", "map", "tatep"])
+        a, b = cv1.mul(cv1.g, rng.bits(256) % st.n), cv2.mul(cv2.g, rng.bits(256) % st.n)
+        out.append("ppm %s %s %s" % (v, pg.p1tok(a), pg.p2tok(b)))
+    return out
+
+
+def gen_lines_fn(ctx, st, count):
+    """the four line functions called directly: running points as small and random multiples, affine and projective representations,
+    the addition with distinct / far-apart points (the exceptional T = +-Q is outside the loops' reach for points of order r)"""
+    import props.c11 as c11
+    rng = ctx.rng
+    cv1, cv2 = st.cv1, st.cv2
+    out = []
+    for i in range(count):
+        k = [1, 2, 3][i] if i < 3 else rng.bits(256) % st.n
+        T2 = cv2.mul(cv2.g, k or 1)
+        Q2 = cv2.mul(cv2.g, (rng.bits(256) % (st.n - 3)) + 2)
+        T1 = cv1.mul(cv1.g, k or 1)
+        P1 = cv1.mul(cv1.g, (rng.bits(256) % (st.n - 3)) + 2)
+        rep2 = c11.ptok(rng, cv2, T2, "P") if i % 2 else pg.p2tok(T2)
+        rep1 = c03.ptok(rng, cv1, T1, "P") if i % 2 else pg.p1tok(T1)
+        out.append("lfn dbl %s %s" % (rep2, pg.p1tok(P1)))
+        out.append("lfn dbll %s %s" % (rep1, pg.p2tok(Q2)))
+        if cv2.mul(Q2, 1) != T2 and cv2.mul(Q2, -1) != T2:
+            out.append("lfn add %s %s %s" % (rep2, pg.p2tok(Q2), pg.p1tok(P1)))
+        if P1 != T1 and cv1.mul(P1, -1) != T1:
+            out.append("lfn addl %s %s %s" % (rep1, pg.p1tok(P1), pg.p2tok(Q2)))
+    return out
+
+
 def streams(ctx, scale=1):
     per = (60 if ctx.tier == "quick" else 1200) * scale
     res = []
@@ -92,6 +244,8 @@ def streams(ctx, scale=1):
 def _stream(ctx, cfg, per):
     ex = pg.exe(ctx, cfg)
     lines = ["cfg"]
+    flines = ["cfg"]
+    mlines = ["cfg"]
     for cid in (IDS.get(cfg) or pg.pairing_ids(ex)):
         kv = pg.info(ex, cid)
         if "p" not in kv:
@@ -99,7 +253,14 @@ def _stream(ctx, cfg, per):
         st = pg.Setting(kv)
         lines.append("pc_param %d" % cid)
         lines += gen_lines(ctx.rng, st, per)
-    return [{"name": "pp-" + cfg, "cfg": cfg, "exe": ex, "lines": lines}]
+        flines.append("pc_param %d" % cid)
+        flines += gen_fexp(ctx, ex, cid, st, kv, max(6, per // 8) if cfg == "base" else max(5, per // 10))
+        mlines.append("pc_param %d" % cid)
+        mlines += gen_miller(ctx, st, max(2, per // 20) if cfg == "base" else 1)
+        mlines += gen_lines_fn(ctx, st, 6 if ctx.tier == "quick" else 60)
+    return [{"name": "pp-" + cfg, "cfg": cfg, "exe": ex, "lines": lines},
+            {"name": "fexp-" + cfg, "cfg": cfg, "exe": ex, "lines": flines},
+            {"name": "miller-" + cfg, "cfg": cfg, "exe": ex, "lines": mlines}]
 
 
 def search_streams(ctx, mfail):
